@@ -78,6 +78,95 @@ def static_supported(a, b):
     return ca == cb
 
 
+# ---- applicative comparison (apply_isequal / apply_isclose): nested lists, fixed arrays, tuples, optionals --------------------
+NOTHING = "Nothing"
+APPLY_VALUES = {
+    "num": [1, 2],
+    "vec": [[], [1], [2], [1, 2], [1, 2, 3], [1, 2, 4], [1, 3, 3]],
+    "vecvec": [[], [[]], [[1]], [[1], [2]], [[1, 2]], [[1, 2], [3]], [[1, 2], [3, 4]], [[1, 2], [3, 5]], [[1, 2], [3, 4], [5, 6]]],
+    "vecarr2": [[], [[1, 2]], [[1, 2], [3, 4]], [[1, 2], [3, 5]], [[1, 2], [3, 4], [5, 6]]],
+    "arr": [[1], [2], [1, 2], [1, 3], [1, 2, 3], [1, 2, 4]],
+    "tup": [[1, 2], [1, 3], [1, 2, 3], [1, 2, 4]],
+    "maybe_num": [None, 1, 2],
+    "maybe_vec": [None, [], [1, 2], [1, 2, 3]],
+    "maybe_vecvec": [None, [[1, 2]], [[1, 2], [3]]],
+    "nothing": [0],
+}
+
+
+def apply_type(o):
+    f, v = o["form"], o["v"]
+    if f == "nothing":
+        return ("nothing",)
+    if f.startswith("maybe_"):
+        return ("maybe", apply_type({"form": f[6:], "v": None}))
+    if f == "num":
+        return ("num",)
+    if f == "vec":
+        return ("vec", ("num",))
+    if f == "vecvec":
+        return ("vec", ("vec", ("num",)))
+    if f == "vecarr2":
+        return ("vec", ("fixed", 2))
+    return ("fixed", len(v))        # arr / tup
+
+
+def apply_supported_t(a, b):
+    """mirrors ap_supported in harness/srv_iseq.cpp"""
+    na, nb, ma, mb = a[0] == "nothing", b[0] == "nothing", a[0] == "maybe", b[0] == "maybe"
+    if na and nb:
+        return False
+    if ma and mb:
+        return apply_supported_t(a[1], b[1])
+    if (ma and nb) or (na and mb):
+        return True
+    if na or nb:
+        return False
+    if ma:
+        return apply_supported_t(a[1], b)
+    if mb:
+        return apply_supported_t(a, b[1])
+    if a[0] == "num" or b[0] == "num":
+        return a[0] == b[0]
+    if a[0] == "vec" and b[0] == "vec":
+        return apply_supported_t(a[1], b[1])
+    if a[0] == "vec":
+        return a[1] == ("num",)
+    if b[0] == "vec":
+        return b[1] == ("num",)
+    return a[1] == b[1]
+
+
+def apply_expected(a, b):
+    def val(o):
+        return NOTHING if o["form"] == "nothing" else o["v"]
+
+    def eq(x, y):
+        if x is NOTHING or y is NOTHING:
+            return (y if x is NOTHING else x) is None
+        if x is None or y is None:
+            return x is None and y is None
+        if isinstance(x, list) != isinstance(y, list):
+            return False
+        if isinstance(x, list):
+            return len(x) == len(y) and all(eq(p, q) for p, q in zip(x, y))
+        return x == y
+    return eq(val(a), val(b))
+
+
+def apply_cases():
+    ops = [{"form": f, "v": v} for f, vs in APPLY_VALUES.items() for v in vs]
+    for a in ops:
+        for b in ops:
+            if (a["form"] in ("arr", "tup") and b["form"] in ("arr", "tup") and len(a["v"]) != len(b["v"])):
+                continue                                  # fixed sizes differ: rejected at compile time
+            if not apply_supported_t(apply_type(a), apply_type(b)):
+                continue
+            for nd in (False, True):
+                yield {"op": "apply_isequal", "a": a, "b": b, "ndebug": nd}
+                yield {"op": "apply_isclose", "a": a, "b": b, "ndebug": nd}
+
+
 class C18(Prop):
     id = "C18"
     servers = ["iseq", "iseq_ndebug"]
@@ -178,6 +267,8 @@ class C18(Prop):
                     yield {"op": "isequal", "a": operand("either_l", [], [x]), "b": operand("vec", [1], [y]), "ndebug": nd}
                     yield {"op": "isequal", "a": operand("either_r", [1], [x]), "b": operand("num", [], [y]), "ndebug": nd}
 
+        yield from apply_cases()
+
     def n_random(self, tier):
         return 8000 if tier == "quick" else 200000
 
@@ -208,6 +299,8 @@ class C18(Prop):
 
     # ---- known-finding classes ------------------------------------------------
     def _finding(self, case):
+        if case["op"].startswith("apply_"):
+            return None
         ka, sa, _ = logical(case["a"])
         kb, sb, _ = logical(case["b"])
         if ka == "arr" and kb == "arr" and sa != sb:
@@ -224,6 +317,8 @@ class C18(Prop):
 
     def nontrivial(self, case):
         a, b = case["a"], case["b"]
+        if case["op"].startswith("apply_"):
+            return a != b
         ka, sa, da = logical(a)
         kb, sb, db = logical(b)
         if ka != kb or sa != sb:
@@ -232,6 +327,9 @@ class C18(Prop):
 
     def classes(self, case):
         a, b = case["a"], case["b"]
+        if case["op"].startswith("apply_"):
+            return ["fn:" + case["op"], "build:" + ("ndebug" if case.get("ndebug") else "asserts"), "forms:%s/%s" % (a["form"], b["form"]),
+                    "expected_equal" if apply_expected(a, b) else "expected_different"]
         ka, sa, _ = logical(a)
         kb, sb, _ = logical(b)
         out = ["fn:" + case["op"], "build:" + ("ndebug" if case.get("ndebug") else "asserts"), "forms:%s/%s" % (a["form"], b["form"])]
@@ -248,6 +346,11 @@ class C18(Prop):
             return "HARNESS-ERROR server: " + obs["error"]
         if "unsupported" in obs:
             return "HARNESS-ERROR pairing table mismatch: " + obs["unsupported"]
+        if case["op"].startswith("apply_"):
+            exp = apply_expected(case["a"], case["b"])
+            if obs["r"] != exp:
+                return "%s(%s %s, %s %s) = %s, expected %s" % (case["op"], case["a"]["form"], case["a"]["v"], case["b"]["form"], case["b"]["v"], obs["r"], exp)
+            return None
         exp = expected_equal(case["a"], case["b"], case.get("eps"))
         if obs["r"] != exp:
             return "%s(%s %s, %s %s) = %s, expected %s" % (case["op"], case["a"]["form"], logical(case["a"])[1:], case["b"]["form"], logical(case["b"])[1:], obs["r"], exp)
